@@ -537,9 +537,23 @@ Fixpoint ints_ok (v : pyval) : bool :=
 
 (* ------------------------------------------------------------------ util_ast.as_ast / as_literal *)
 
-(* fixed code (fixes/F01.diff):  if isinstance(p_var, str): p_var = repr(p_var);  ast.parse(str(p_var)) *)
+(* CPython's tokenizer refuses more than 200 open brackets (MAXLEVEL): `too many nested parentheses` *)
+Definition max_nesting : nat := 200.
+
+Fixpoint depth (v : pyval) : nat :=
+  match v with
+  | PList l | PTuple l => S (fold_right (fun x a => Nat.max (depth x) a) 0 l)
+  | PDict kvs => S (fold_right (fun kv a => match kv with (k, x) => Nat.max (Nat.max (depth k) (depth x)) a end) 0 kvs)
+  | _ => 0
+  end.
+
+(* the values the property covers and CPython can round-trip through source text at all *)
+Definition embeddable (v : pyval) : bool := finite v && Nat.leb (depth v) max_nesting.
+
+(* fixed code (fixes/F01.diff):  if isinstance(p_var, str): p_var = repr(p_var);  ast.parse(str(p_var))
+   None: str(int) raises ValueError (too many digits) / ast.parse raises SyntaxError (too many nested brackets) *)
 Definition as_ast (v : pyval) : option expr :=
-  if ints_ok v then parse_text (repr_t v) else None.          (* None: str(int) raises ValueError *)
+  if ints_ok v && Nat.leb (depth v) max_nesting then parse_text (repr_t v) else None.
 
 (* the pinned commit:  p_var = f`'{p_var}'`  *)
 Definition as_ast_unfixed (v : pyval) : option expr :=
